@@ -55,7 +55,7 @@ def gen_elem(rng, depth, budget):
     tag = rng.choice(TAGS)
     e = {"tag": tag, "attrs": {}, "text": None, "children": []}
     for _ in range(rng.randrange(0, 3)):
-        e["attrs"][rng.choice(["id", "name", "unit", "flag", "v"])] = rng.choice(["1", "x", "", "true", "a b", "2.5", "xs:int", "n:0"])
+        e["attrs"][rng.choice(["id", "name", "unit", "flag", "v"])] = rng.choice(["1", "x", "", "true", "a b", "2.5", "xs:int", "n:0", "none", "NULL", "null", "off", " None "])
     if depth < 4 and budget[0] > 0 and rng.random() < 0.5:
         for _ in range(rng.randrange(1, 4)):
             if budget[0] <= 0:
